@@ -34,7 +34,7 @@ ASSUMPTIONS = [
 
 def budget(tier):
     if tier == "quick":
-        return dict(examples=30, shards=16, shrink_calls=100)
+        return dict(examples=30, shards=16, shrink_calls=40)
     return dict(examples=700, shards=16, shrink_calls=1500)
 
 
@@ -74,7 +74,8 @@ def _case(draw):
     opt = draw(st.sampled_from([0, 1, "match"]))
     ref = [draw(frac) for _ in range(n if opt == 1 else len(elements) + 1)]
     return {"pool": pool, "reactions": reacs, "required": [i for i in range(n) if i not in used], "eletter": draw(st.sampled_from(["e-", "E"])),
-            "cooling": [], "heating": [], "ode_mod": [], "ab": [str(x) for x in ab], "opt": opt, "ref": [str(x) for x in ref], "complete": complete}
+            "cooling": [], "heating": [], "ode_mod": [], "ab": [str(x) for x in ab], "opt": opt, "ref": [str(x) for x in ref], "complete": complete,
+            "compile": draw(st.integers(0, 15)) == 0, "route": draw(st.sampled_from(["api", "api", "grow-from-file"]))}
 
 
 def strategy(tier):
@@ -89,6 +90,27 @@ def fixed_cases(tier):
     ab = ["1", "1/2", "1/10000", "3/10000", "1/20000", "1/100000", "1/10000", "1/10000", "1/1000000", "1/50000"]
     return [dict(base, ab=ab, opt=0, ref=["1", "2/10000", "4/10000"]), dict(base, ab=ab, opt="match", ref=[]),
             dict(base, pool=pool + [{"k": "grain", "g": 0, "q": 0}], required=list(range(2, 11)), ab=ab + ["1/100000000000"], opt=0, ref=["1", "2/10000", "4/10000", "1/100000000000"])]
+
+
+def build_grown(case, d):
+    """Build from the first reaction, look at the network (species / elements), then extend it from a native-format file
+    that brings in the remaining reactions and every other species (new elements included)."""
+    from naunet.network import Network
+    from ..gen import formats as F
+
+    names = N.names_of(case)
+    first = dict(case, reactions=case["reactions"][:1], required=[])
+    net = Network(reactions=N.build_reactions(first))
+    _ = [e.name for e in net.elements]
+    _ = [s.alias for s in net.species]
+    rest = list(case["reactions"][1:])
+    for i in case.get("required", []):
+        rest.append({"r": [i], "p": [i], "pseudo": [], "type": 100, "a": 0.0, "b": 0.0, "c": 0.0, "tmin": -1.0, "tmax": -1.0, "idx": -1})
+    path = d / "grow.naunet"
+    path.write_text("\n".join(F.encode_naunet(F.from_case_reaction(rc, N.names_for_reaction(case, rc)), padded=False) for rc in rest) + "\n")
+    if rest:
+        net.add_reaction_from_file(str(path), "naunet")
+    return net
 
 
 def solve_exact(A, b):
@@ -106,6 +128,41 @@ def solve_exact(A, b):
     return [M_[i][n] / M_[i][i] for i in range(n)]
 
 
+def compiled_renorm(case, proj, method, byslot, cur, new, ref, names_by_row, nel, failures):
+    """Engine A: the rendered SetReferenceAbund + Renorm (real LU from the shim) against the exact result."""
+    from ..cxx import build
+
+    try:
+        exe = build.build_renorm_driver(proj)
+    except build.BuildError as e:
+        failures.append((f"renorm/compiled/does-not-compile", f"{method}: {str(e)[-400:]}"))
+        return
+    ab = [0.0] * proj.neq
+    for s, v in cur.items():
+        ab[s] = float(v)
+    refv = [float(ref[names_by_row[r]]) * 3.0 for r in range(nel)]  # opt 0: element abundances, any common scale
+    text = "ab " + " ".join(float(v).hex() for v in ab) + "\nref " + " ".join(float(v).hex() for v in refv) + "\nopt 0\nrun\n"
+    rc, out, err = build.run_driver(exe, text, proj.path)
+    if rc != 0 or "AddressSanitizer" in err or "runtime error:" in err or "VT_BOUNDS" in err:
+        kind = "asan" if "AddressSanitizer" in err else "ubsan" if "runtime error" in err else "bounds" if "VT_BOUNDS" in err else f"exit{rc}"
+        failures.append((f"renorm/compiled/sanitizer/{kind}", f"{method}: {err[-400:]}"))
+        return
+    line = next((l for l in out.splitlines() if l.startswith("AB")), None)
+    if line is None:
+        raise RuntimeError(f"renorm driver gave no result: {out[-200:]} {err[-200:]}")
+    got = [float.fromhex(x) for x in line.split()[1:]]
+    # the double-precision LU is only comparable with the exact solve when the element system is well scaled
+    scale = max(abs(float(new[s]) / float(cur[s])) for s in byslot if cur[s] != 0)
+    small = min(abs(float(new[s]) / float(cur[s])) for s in byslot if cur[s] != 0)
+    if scale > 1e4 or small < 1e-4:
+        return
+    for s in byslot:
+        w = float(new[s])
+        if not (abs(got[s] - w) <= 1e-4 * max(abs(w), abs(float(cur[s])))):
+            failures.append((f"renorm/compiled-differs-from-exact/{method}", f"{method}: compiled Renorm gives ab[{s}] = {got[s]!r}, exact evaluation of the text gives {w!r}"))
+            break
+
+
 def check_case(case, tier):
     N.reset_naunet_state()
     failures = []
@@ -121,8 +178,12 @@ def check_case(case, tier):
     ab = [Fraction(x) for x in case["ab"]]
     with N.Scratch() as d:
         try:
-            net = N.build_network(case)
-            projs = N.render(net, d, backends=[("cvode", "dense", "cpu"), ("odeint", "rosenbrock4", "cpu")])
+            if case.get("route") == "grow-from-file":
+                net = build_grown(case, d)
+                labels.append("grown-from-file-after-first-look")
+            else:
+                net = N.build_network(case)
+            projs = N.render(net, d, backends=[("cvode", "dense", "cpu"), ("odeint", "rosenbrock4", "cpu")], templates="all" if case.get("compile") else "ode")
         except Exception as e:
             import traceback
 
@@ -242,6 +303,9 @@ def check_case(case, tier):
                 s_bad = next(s for s in byslot if new[s] != cur[s])
                 failures.append((f"renorm/not-identity{tag}", f"{method}: ratios already match but slot {s_bad} ({N.names_of(case)[byslot[s_bad]]}) is scaled by {float(new[s_bad] / cur[s_bad])}"))
             results[method] = (A, {s: new[s] for s in byslot})
+            if case.get("compile") and not failures:
+                labels.append("compiled-cross-check")
+                compiled_renorm(case, proj, method, byslot, cur, new, ref, names_by_row, nel, failures)
         if len(results) == 2:
             (a1, n1), (a2, n2) = results.values()
             if a1 != a2 or n1 != n2:
